@@ -711,7 +711,8 @@ def units(tier):   # noqa: F811
 
 
 LINE_INV = """
-__CPROVER_assigns(vp_st, @it@, @v@, data_n, __CPROVER_object_whole(data), g_has_prev, g_pb, g_pd)
+__CPROVER_assigns(vp_st, @it@, @v@, data_n, __CPROVER_object_whole(data), g_has_prev, g_pb, g_pd, g_pending)
+__CPROVER_loop_invariant(g_pending == (vp_st == @st_state12down@ || vp_st == @st_state132up@ || vp_st == @st_state312down@ || vp_st == @st_up@ || vp_st == @st_down@))
 __CPROVER_loop_invariant(@it@ <= @stop@ && @stop@ == g_n && g_n <= NMAX && 1 <= data_n && data_n <= @it@)
 __CPROVER_loop_invariant(!g_has_prev || LT(g_pb, g_pd))
 __CPROVER_loop_invariant(vp_st <= @st_infinite@ && vp_st != @st_state1down@ && (vp_st != 0 || data_n == 1))
@@ -739,15 +740,16 @@ def line_invariant_units(tier):
     invariant 'data contains a sequence of type 1 9 2 8 3 7 ...' made precise per state, plus a variant."""
     U = []
     con = """
-__CPROVER_requires(in_ok() && !g_has_prev)
+__CPROVER_requires(in_ok() && !g_has_prev && !g_pending)
 __CPROVER_ensures(g_n == 0 ? !g_has_prev : (g_has_prev && g_pd == FV_INF && data_n == 1 && g_pb == data[0]))
-__CPROVER_assigns(data, data_n, g_has_prev, g_pb, g_pd)
+__CPROVER_ensures(!g_pending)
+__CPROVER_assigns(data, data_n, g_has_prev, g_pb, g_pd, g_pending)
 """
     cases = [(64, "int", False), (64, "int", True)] + ([(128, "int", False), (64, "double", False), (64, "double", True)] if tier == "thorough" else [])
     for n, ty, gr in cases:
         fn = Fn(L, r"void compute_persistence_of_function_on_line\(FiltrationRange const& input, OutputFunctor&& out, Compare&& lt = \{\}\)",
                 "line_persistence", con, sig_subs=[(r"\(FiltrationRange const& input, OutputFunctor&& out, Compare&& lt = \{\}\)", "(void)")],
-                calls={"out": "out_rec", "lt": "LT"}, subs=LINE_SUBS, dispatch=True, loops={0: LINE_INV},
+                calls={"out": "out_rec", "lt": "LT"}, subs=LINE_SUBS + [(r"DATA\(([^()]*)\) = (\w+);", r"DATA_SET(\1, \2);")], dispatch=True, loops={0: LINE_INV},
                 derive={"it": r"auto (\w+) = begin\(input\)", "stop": r"auto (\w+) = end\(input\)", "v": r"\bFiltration (\w+);"},
                 canary=(r"if \(le\(v, DATA\(data_n - 2\)\)\)", "if (LT(v, DATA(data_n - 2)))"))
         nm = f"line.invariant.cap{n}.{ty}.{'greater' if gr else 'less'}"
@@ -756,7 +758,7 @@ __CPROVER_assigns(data, data_n, g_has_prev, g_pb, g_pd)
                       globals_="", route="B", unwind=(n + 2 if ty == "double" else 12),
                       bound=f"at most {n} samples (capacity of the arrays); the loop is closed by its invariant, not unwound",
                       inputs=["g_n"],
-                      harness=H("  g_has_prev = 0;", "line_persistence();"),
+                      harness=H("  g_has_prev = 0; g_pending = 0;", "line_persistence();"),
                       runs=[Run(backend="sat", timeout=1800)],
                       desc=f"compute_persistence_of_function_on_line ({ty}, std::{'greater' if gr else 'less'}), loop contract on the state machine: per state, the size/parity of data and its alternating shape (lows increasing, highs decreasing, every low below every high) are inductive; hence every data[...] / end()[-k] / erase / pop_back stays inside the vector, GUDHI_CHECK never fires, every bar but the last has birth < death, exactly the last call is (data[0], infinity), and the routine terminates (variant 4*(remaining input) + 2*size + state rank)"))
     return U
